@@ -154,6 +154,69 @@ func deepProgram(seed int64, caseNo int, pageSize int, opts gen.OpenOpts) *gen.P
 	return p
 }
 
+// twinProgram builds sources in which buckets of the same name sit at the same depth under different
+// parents, with and without plain keys of the parent visited between them in walk order (names sort before
+// "k....", "zz\xff" after), twins that are empty, inline or paged, and twins at two levels. A compaction
+// that identifies a destination bucket by anything less than its full path mixes them up.
+func twinProgram(seed int64, caseNo int, pageSize int, opts gen.OpenOpts) *gen.Program {
+	r := rand.New(rand.NewSource(seed*1000003 + int64(caseNo)*7919 + 151))
+	p := &gen.Program{Name: "twins", Seed: seed, Case: caseNo}
+	opts.PageSize = pageSize
+	add := func(st gen.Step) { p.Steps = append(p.Steps, st) }
+	add(gen.Step{Op: "open", Opts: &opts})
+	add(gen.Step{Op: "begin", W: true})
+	kid := 0
+	fillKeys := func(path []int, n int) {
+		for i := 0; i < n; i++ {
+			kid++
+			vl := r.Intn(40)
+			if r.Intn(15) == 0 {
+				vl = pageSize + r.Intn(pageSize)
+			}
+			add(gen.Step{Op: "put", P: path, K: &gen.K{ID: kid}, V: &gen.V{Seed: r.Uint32(), Len: vl}})
+		}
+	}
+	sizes := []int{0, 1, 3, 30, 150}
+	// child names: indices 3,4 sort before plain keys ("b3","b4" < "k0001"), 7 ("zz\xff") after them
+	childSets := [][]int{{3}, {3, 4}, {7}, {3, 7}, {4, 7}}
+	nparents := 2 + r.Intn(3)
+	cs := childSets[r.Intn(len(childSets))]
+	for pi := 0; pi < nparents; pi++ {
+		parent := []int{pi}
+		add(gen.Step{Op: "create", N: pi})
+		if r.Intn(2) == 0 {
+			add(gen.Step{Op: "setSeq", P: parent, U: uint64(100 + pi)})
+		}
+		// plain keys of the parent: none, a few
+		if r.Intn(3) == 0 {
+			fillKeys(parent, 1+r.Intn(4))
+		}
+		for _, cn := range cs {
+			if r.Intn(5) == 0 {
+				continue // this parent lacks that twin
+			}
+			child := append(append([]int{}, parent...), cn)
+			add(gen.Step{Op: "create", P: parent, N: cn})
+			if r.Intn(2) == 0 {
+				add(gen.Step{Op: "setSeq", P: child, U: uint64(1000*pi + cn)})
+			}
+			fillKeys(child, sizes[r.Intn(len(sizes))])
+			// second level twins
+			if r.Intn(2) == 0 {
+				gc := append(append([]int{}, child...), 5)
+				add(gen.Step{Op: "create", P: child, N: 5})
+				fillKeys(gc, sizes[r.Intn(len(sizes))])
+				if r.Intn(2) == 0 {
+					add(gen.Step{Op: "setSeq", P: gc, U: uint64(r.Intn(1 << 20))})
+				}
+			}
+		}
+	}
+	add(gen.Step{Op: "commit"})
+	add(gen.Step{Op: "close"})
+	return p
+}
+
 // walkSizes lists, in Compact's walk order, len(k)+len(v) of every item and its bucket depth.
 func walkSizes(b *model.Bucket, depth int, out *[][2]int) {
 	for _, k := range b.Keys() {
@@ -520,6 +583,10 @@ func runC15(c *Ctx) int {
 		o := gen.OpenOpts{Freelist: backends[i%2], NoFreelistSync: i%4 == 3}
 		progs = append(progs, deepProgram(c.Seed+1501, i, pageSizes[i%len(pageSizes)], o))
 	}
+	for i := 0; i < c.Pick(16, 600); i++ {
+		o := gen.OpenOpts{Freelist: backends[i%2]}
+		progs = append(progs, twinProgram(c.Seed+1502, i, pageSizes[i%len(pageSizes)], o))
+	}
 	if c.Replay != "" {
 		a := c15Args{Progs: []string{c.Replay}, Dir: c.Tmp, Bbolt: bin, Seed: c.Seed, NLim: 17, CLIPer: 17}
 		r := c15One(&a, 0, c.Replay)
@@ -624,7 +691,7 @@ func runC15(c *Ctx) int {
 	cov := map[string]any{
 		"evaluations":                         tot.Compactions + tot.CLIRuns,
 		"distinct_nontrivial":                 len(nontriv),
-		"rule":                                "sources: generated API programs (profiles buckets/mixed/big/structural, nesting up to 5) and hand-shaped deep programs (nesting up to 6, empty buckets, empty/nil/multi-page values, inline and paged buckets, sequences up to 2^64-1 at every level), 4 page sizes, both backends; each source x limits {derived: cumulative walk size at items inside nested buckets, total, total-1, total/2+1; fixed: 1,0,65536,7,64,2,2^20,4096,3,512,2^14} through bolt.Compact (destination page size/backend varied, source opened read-only or read-write) and through the freshly built `bbolt compact`. Oracle: destination dump == source dump == model M (sequences included), Tx.Check and D clean on the destination, source SHA-256 unchanged, CLI exit 0 and expected output on success, non-zero on missing/non-database source and unwritable destination. Non-trivial: source has nested buckets and >= 5 keys; distinct = (source shape: depth, empty bucket/value, nested sequence, inline, overflow, paged; limit class; via; number of destination commits; page size).",
+		"rule":                                "sources: generated API programs (profiles buckets/mixed/big/structural, nesting up to 5), 'twins' programs (same-named buckets at the same depth under different parents, with and without plain keys between them in walk order, empty/inline/paged, two levels) and hand-shaped deep programs (nesting up to 6, empty buckets, empty/nil/multi-page values, inline and paged buckets, sequences up to 2^64-1 at every level), 4 page sizes, both backends; each source x limits {derived: cumulative walk size at items inside nested buckets, total, total-1, total/2+1; fixed: 1,0,65536,7,64,2,2^20,4096,3,512,2^14} through bolt.Compact (destination page size/backend varied, source opened read-only or read-write) and through the freshly built `bbolt compact`. Oracle: destination dump == source dump == model M (sequences included), Tx.Check and D clean on the destination, source SHA-256 unchanged, CLI exit 0 and expected output on success, non-zero on missing/non-database source and unwritable destination. Non-trivial: source has nested buckets and >= 5 keys; distinct = (source shape: depth, empty bucket/value, nested sequence, inline, overflow, paged; limit class; via; number of destination commits; page size).",
 		"samples":                             samples,
 		"sources":                             sources,
 		"sources_skipped":                     skipped,
